@@ -271,6 +271,8 @@ def gen_history(seed, wl, cfg=None):
             'rollover': rng.random() < 0.25,
             'clock_start': 730000 + rng.randrange(15000),
             'filelayer': True, 'clock': True, 'probe': True}
+    if arm == 'native' and rng.random() < 0.35:
+        mode['malloc'] = True      # PYTHONMALLOC=malloc: another real allocator, other address patterns
     if arm == 'bare':
         mode.update({'addr': 'native', 'filelayer': False, 'clock': False,
                      'probe': False, 'rollover': False})
@@ -350,7 +352,8 @@ def gen_history(seed, wl, cfg=None):
             if m.get('param'):
                 used_params[m['param']] = params[m['param']]
     return {'seed': seed, 'mode': mode, 'inputs': used, 'params': used_params,
-            'steps': steps, 'arm': arm, 'faults_on': bool(en_faults)}
+            'steps': steps, 'arm': arm + ('-malloc' if mode.get('malloc') else ''),
+            'faults_on': bool(en_faults)}
 
 
 def gen_sweep(seed, wl, cfg=None):
